@@ -2,6 +2,7 @@ package kv
 
 import (
 	"bytes"
+	"encoding/base64"
 	"encoding/json"
 	"errors"
 	"fmt"
@@ -17,6 +18,7 @@ import (
 	"sync"
 	"testing"
 	"time"
+	"unicode/utf8"
 
 	"github.com/anishathalye/porcupine"
 	"github.com/bartventer/httpcache/store/driver"
@@ -321,12 +323,37 @@ func c14Run(r *run.Runner, c c14Case, idx int) {
 					kerr = fmt.Errorf("http %d: %s", code, body)
 				} else {
 					var out struct {
-						Keys []string `json:"keys"`
+						Keys    []string `json:"keys"`
+						KeysRaw []string `json:"keys_raw"` // keys that are not valid UTF-8, base64
 					}
 					if err := json.Unmarshal(body, &out); err != nil {
 						kerr = err
 					}
-					got = out.Keys
+					// a key that is not valid UTF-8 appears mangled in "keys" and
+					// byte-exactly in "keys_raw": drop one mangled twin per raw key
+					mangled := map[string]int{}
+					for _, b64 := range out.KeysRaw {
+						raw, err := base64.StdEncoding.DecodeString(b64)
+						if err != nil || utf8.Valid(raw) {
+							kerr = fmt.Errorf("keys_raw entry %q: not base64 of a key that needs it", b64)
+							break
+						}
+						got = append(got, string(raw))
+						jb, _ := json.Marshal(string(raw))
+						var twin string
+						json.Unmarshal(jb, &twin)
+						mangled[twin]++
+					}
+					for _, k := range out.Keys {
+						if mangled[k] > 0 {
+							mangled[k]--
+							continue
+						}
+						got = append(got, k)
+					}
+					if got == nil {
+						got = []string{}
+					}
 				}
 				r.Count("api_ops", 1)
 			} else if kl, ok := conn.(keyLister); ok {
@@ -346,16 +373,6 @@ func c14Run(r *run.Runner, c c14Case, idx int) {
 			}
 			sort.Strings(want)
 			sort.Strings(got)
-			if api != nil && opi%2 == 1 {
-				// JSON cannot carry invalid UTF-8 byte-exactly: compare through the same encoding
-				for i := range want {
-					b, _ := json.Marshal(want[i])
-					var s string
-					json.Unmarshal(b, &s)
-					want[i] = s
-				}
-				sort.Strings(want)
-			}
 			if strings.Join(got, "\x01") != strings.Join(want, "\x01") {
 				viol("keys-mismatch", fmt.Sprintf("got=%d,want=%d", min(len(got), 3), min(len(want), 3)), fmt.Sprintf("listing with prefix %q returned %d keys, the model holds %d (got %q, want %q)", op.Prefix, len(got), len(want), trunc(got), trunc(want)), opi)
 			}
